@@ -133,4 +133,17 @@ Definition sspec_step (m : sset) (o : sop K) : option (sset * eres (sret K)) :=
     | _ => match ss_find ch m with Some _ => Some (ss_drop ch m, EOk (SRKey ch)) | None => None end
     end
   end.
+Fixpoint sspec_run (m : sset) (ops : list (sop K)) : option (list (eres (sret K)) * sset) :=
+  match ops with
+  | [] => Some ([], m)
+  | o :: r =>
+    match sspec_step m o with
+    | None => None
+    | Some (m', x) =>
+      match sspec_run m' r with
+      | None => None
+      | Some (xs, mf) => Some (x :: xs, mf)
+      end
+    end
+  end.
 End Spec.
